@@ -493,6 +493,17 @@ def classify_diags(res, text, labels, ranges, owned=()):
             continue
         spans = [s for s in d.get("spans", []) if os.path.basename(s.get("file_name", "")) == gen_name]
         foreign = [s for s in d.get("spans", []) if s not in spans]
+        # an error inside a macro expansion (`panic!`, `unreachable!`) has its span in the macro's
+        # own file; the call site in the generated file is in the span's expansion chain
+        for s0 in foreign:
+            e = s0.get("expansion")
+            while e and e.get("span"):
+                if os.path.basename(e["span"].get("file_name", "")) == gen_name:
+                    cs = dict(e["span"])
+                    cs["is_primary"] = s0.get("is_primary", False)
+                    spans.append(cs)
+                    break
+                e = e["span"].get("expansion")
         prim = [s for s in spans if s.get("is_primary")]
         ordered = prim + [s for s in spans if not s.get("is_primary")]
         if not any(msg.startswith(v) or v in msg for v in VERIFICATION_ERRORS):
